@@ -37,6 +37,7 @@ type c13Scenario struct {
 	cache     int  // > 0: the seed is flushed and the page cache replaced by an empty one of this capacity
 	locksOnly bool // scheduling points only at lock operations, header writes and statement boundaries
 	failing   bool // the statement list ends in an error: pages written inside the window count only if the statement logs afterwards
+	nosync    bool // the store is opened without log fsync (what csvimport -disable-wal-fsync does)
 }
 
 func c13Stmt(w *world, kind string) stmt {
@@ -71,38 +72,40 @@ func runC13(env *lib.Env, rep *lib.Report) {
 	}
 	bound := 2
 	scenarios := []c13Scenario{
-		{"insert1", "t1x8", []string{"insert1"}, 2, 0, false, false},
-		{"insert9", "t1x8", []string{"insert9"}, 2, 0, false, false},
-		{"update", "t1x8", []string{"update"}, 2, 0, false, false},
-		{"delete", "t1x8", []string{"delete"}, 2, 0, false, false},
-		{"select", "t1x8", []string{"select"}, 2, 0, false, false},
-		{"create", "t1x8", []string{"create"}, 2, 0, false, false},
-		{"insert1;delete;select", "t1x8", []string{"insert1", "delete", "select"}, 1, 0, false, false},
+		{"insert1", "t1x8", []string{"insert1"}, 2, 0, false, false, false},
+		{"insert9", "t1x8", []string{"insert9"}, 2, 0, false, false, false},
+		{"update", "t1x8", []string{"update"}, 2, 0, false, false, false},
+		{"delete", "t1x8", []string{"delete"}, 2, 0, false, false, false},
+		{"select", "t1x8", []string{"select"}, 2, 0, false, false, false},
+		{"create", "t1x8", []string{"create"}, 2, 0, false, false, false},
+		{"insert1;delete;select", "t1x8", []string{"insert1", "delete", "select"}, 1, 0, false, false, false},
 		// a page cache too small for the statement's dirty set: the statement must be refused (or fit), never
 		// make room by writing pages in the middle of the statement
-		{"insert9/cache3", "t1x8", []string{"insert9"}, 1, 3, false, false},
-		{"insert9/cache4", "t1x8", []string{"insert9"}, 1, 4, false, false},
-		{"insert9/cache5", "t1x8", []string{"insert9"}, 1, 5, false, false},
-		{"insert9/cache6", "t1x8", []string{"insert9"}, 1, 6, false, false},
-		{"insert9;insert9/cache8", "t1x8", []string{"insert9", "insert9"}, 1, 8, false, false},
+		{"insert9/cache3", "t1x8", []string{"insert9"}, 1, 3, false, false, false},
+		{"insert9/cache4", "t1x8", []string{"insert9"}, 1, 4, false, false, false},
+		{"insert9/cache5", "t1x8", []string{"insert9"}, 1, 5, false, false, false},
+		{"insert9/cache6", "t1x8", []string{"insert9"}, 1, 6, false, false, false},
+		{"insert9;insert9/cache8", "t1x8", []string{"insert9", "insert9"}, 1, 8, false, false, false},
 		// one statement with more than a thousand row operations: however it is processed internally, the lock is
 		// held from its first change to the end of its log append
-		{"insert1200/lock-points", "t1x8", []string{"insert1200"}, 2, 0, true, false},
+		{"insert1200/lock-points", "t1x8", []string{"insert1200"}, 2, 0, true, false, false},
 		// a statement refused half way: whatever it does about the rows it has already changed, it must not let them
 		// reach the data file ahead of log records it writes later
-		{"update-refused-at-third-row", "c14:t4k3", []string{"update-refused-at-third-row"}, 2, 0, false, true},
+		{"update-refused-at-third-row", "c14:t4k3", []string{"update-refused-at-third-row"}, 2, 0, false, true, false},
 		// the CREATE TABLE that makes the page table grow a level (its seventh user table)
-		{"create/7th-table", "six-tables", []string{"create"}, 2, 0, false, false},
+		{"create/7th-table", "six-tables", []string{"create"}, 2, 0, false, false, false},
+		// the store opened without log fsync: durability is weaker, the order "log before pages" is not
+		{"insert9;update/no-fsync", "t1x8", []string{"insert9", "update"}, 1, 0, false, false, true},
 	}
 	if env.Thorough() {
 		bound = 3
 		scenarios = append(scenarios,
-			c13Scenario{"insert1;delete;select/2", "t1x8", []string{"insert1", "delete", "select"}, 2, 0, false, false},
-			c13Scenario{"update;insert9", "t1x8", []string{"update", "insert9"}, 2, 0, false, false},
-			c13Scenario{"insert1;create;insert1", "t1x8", []string{"insert1", "create", "insert1"}, 2, 0, false, false},
-			c13Scenario{"insert9;update;delete", "t1x8", []string{"insert9", "update", "delete"}, 3, 0, false, false},
-			c13Scenario{"interleaved:insert9;select;insert1", "interleaved", []string{"insert9", "select", "insert1"}, 3, 0, false, false},
-			c13Scenario{"delete;insert9;create", "t1x8", []string{"delete", "insert9", "create"}, 3, 0, false, false})
+			c13Scenario{"insert1;delete;select/2", "t1x8", []string{"insert1", "delete", "select"}, 2, 0, false, false, false},
+			c13Scenario{"update;insert9", "t1x8", []string{"update", "insert9"}, 2, 0, false, false, false},
+			c13Scenario{"insert1;create;insert1", "t1x8", []string{"insert1", "create", "insert1"}, 2, 0, false, false, false},
+			c13Scenario{"insert9;update;delete", "t1x8", []string{"insert9", "update", "delete"}, 3, 0, false, false, false},
+			c13Scenario{"interleaved:insert9;select;insert1", "interleaved", []string{"insert9", "select", "insert1"}, 3, 0, false, false, false},
+			c13Scenario{"delete;insert9;create", "t1x8", []string{"delete", "insert9", "create"}, 3, 0, false, false, false})
 	}
 	var names []string
 	for _, s := range scenarios {
@@ -137,6 +140,23 @@ func runC13(env *lib.Env, rep *lib.Report) {
 		if sc.cache > 0 {
 			storage.VerifReplaceCache(w.sess.RelationService, sc.cache)
 		}
+		if sc.nosync {
+			// flush, close the store and open it again without log fsync
+			if !w.tick() {
+				return
+			}
+			old := w.sess.RelationService
+			if err := guard(func() error { return old.Close() }); err != nil {
+				w.failErr("close-failed", "RelationService.Close", err)
+				return
+			}
+			storage.VerifMarkClosed(old)
+			rs, err := storage.OpenRelation("d", false)
+			if err != nil {
+				panic(lib.HarnessError{Msg: "OpenRelation(d, false): " + err.Error()})
+			}
+			w.sess.RelationService = rs
+		}
 		sched := storage.VerifNewSched(func(n int, label string, cost []int) int { return c.ChooseCost(n, label, cost) }, sc.ticks)
 		sched.LocksOnly = sc.locksOnly
 		sched.LazyWindow = sc.failing
@@ -152,6 +172,9 @@ func runC13(env *lib.Env, rep *lib.Report) {
 				}
 				sched.StatementBegin(s.Kind)
 				err := w.exec(s.SQL)
+				if err == nil {
+					sched.StatementReturned()
+				}
 				sched.StatementEnd()
 				if s.MustFail {
 					if _, isPanic := err.(*panicErr); isPanic || err == nil {
